@@ -70,6 +70,10 @@ func slice(slice []interface{}, parts []sliceParam) ([]interface{}, error) {
 	if step > 0 {
 		for i := start; i < stop; i += step {
 			result = append(result, slice[i])
+			if step >= stop-i {
+				// Done; also keeps i += step from overflowing.
+				break
+			}
 		}
 	} else {
 		for i := start; i > stop; i += step {
